@@ -182,6 +182,17 @@ RotL(a, k, w) == RotR(a, w - (k % w), w)
 NotW(a, w) == Sub(Sub(Pow2(w), One), LowBits(a, w))
 AddW(a, b, w) == LowBits(Add(a, b), w)
 
+(* ---- element-wise word operations on sequences of words (Keccak lanes) ---- *)
+XorVPure(a, b) == [i \in 1..Len(a) |-> BitXorPure(a[i], b[i])]
+AndVPure(a, b) == [i \in 1..Len(a) |-> BitAndPure(a[i], b[i])]
+NotVPure(a, w) == [i \in 1..Len(a) |-> SubPure(SubPure(Pow2(w), <<1>>), LowBitsPure(a[i], w))]
+\* rotate word i left by ks[i] inside w bits
+RotLVPure(a, ks, w) == [i \in 1..Len(a) |-> RotRPure(a[i], w - (ks[i] % w), w)]
+XorV(a, b) == XorVPure(a, b)
+AndV(a, b) == AndVPure(a, b)
+NotV(a, w) == NotVPure(a, w)
+RotLV(a, ks, w) == RotLVPure(a, ks, w)
+
 (* -------------------- GF(2)[z] polynomials as bit strings --------------- *)
 
 RECURSIVE ClMulRec(_, _, _)
